@@ -23,14 +23,14 @@ Step(e) ==
          /\ IF Chunked THEN FEnq(e.v) ELSE (model' = Append(model, e.v) /\ UNCHANGED <<chunks, nops, lastRes>>)
          /\ UNCHANGED <<pset, pcount>>
          /\ IF ~e.ok THEN Fail(e, "C04_EnqueueRefused")
-            ELSE IF Chunked /\ e.chunks # [i \in DOMAIN chunks' |-> <<chunks'[i].r, chunks'[i].w, chunks'[i].cap>>] THEN Fail(e, "C04_ChunkLayout")
+            ELSE IF Chunked /\ e.chunks # [i \in DOMAIN chunks' |-> <<chunks'[i].r, chunks'[i].w, chunks'[i].cap>>] THEN Fail(e, "Conf_ChunkLayout")
             ELSE UNCHANGED bad
     [] e.ds = "fifo" /\ e.op = "deq" ->
          /\ IF Chunked THEN FDeq ELSE (model' = (IF model = <<>> THEN model ELSE Tail(model)) /\ UNCHANGED <<chunks, nops, lastRes>>)
          /\ UNCHANGED <<pset, pcount>>
          /\ IF model = <<>> THEN (IF e.ok THEN Fail(e, "C04_DequeueFromEmpty") ELSE UNCHANGED bad)
             ELSE IF ~e.ok \/ e.v # Head(model) THEN Fail(e, "C04_FifoOrder")
-            ELSE IF Chunked /\ e.chunks # [i \in DOMAIN chunks' |-> <<chunks'[i].r, chunks'[i].w, chunks'[i].cap>>] THEN Fail(e, "C04_ChunkLayout")
+            ELSE IF Chunked /\ e.chunks # [i \in DOMAIN chunks' |-> <<chunks'[i].r, chunks'[i].w, chunks'[i].cap>>] THEN Fail(e, "Conf_ChunkLayout")
             ELSE UNCHANGED bad
     [] e.ds = "fifo" /\ e.op = "purge" ->
          /\ IF Chunked THEN FPurge ELSE (model' = <<>> /\ UNCHANGED <<chunks, nops, lastRes>>)
